@@ -157,6 +157,13 @@ def run(R):
         try:
             return with_timeout(lambda: outcome2(g, entry, t), 2.0)
         except Timeout:
+            pass
+        except RecursionError:
+            return 'RecursionError'
+        # two seconds for a parse of a few characters: a loop, or a machine under load - look again, generously
+        try:
+            return with_timeout(lambda: outcome2(g, entry, t), 30.0)
+        except Timeout:
             return 'timeout'
         except RecursionError:
             return 'RecursionError'
